@@ -118,10 +118,11 @@ func (g *gen) value(d int) *J {
 func (g *gen) constValue(d int) *J {
 	for {
 		v := g.value(d)
-		if v.K == 'o' {
-			continue
-		}
-		if g.noClose && hasObject(v) {
+		// objects inside const/enum become close({..}) literals; next to any
+		// open struct reached by a sibling keyword (items, properties, a
+		// hoisted member) their closedness is lost by the evaluator (C13-F13),
+		// also below arrays - which Encode.v does not track.  Keep them out.
+		if hasObject(v) {
 			continue
 		}
 		return v
